@@ -20,7 +20,7 @@ import elementpath.aliases as ta
 from elementpath.namespaces import XML_ID, XML_LANG
 from elementpath.datatypes import AnyURI, Float, DayTimeDuration, YearMonthDuration, \
     StringProxy, AnyAtomicType, Duration
-from elementpath.helpers import get_double, round_number
+from elementpath.helpers import collapse_white_spaces, get_double, round_number
 from elementpath.xpath_nodes import XPathNode, ElementNode, TextNode, CommentNode, \
     ProcessingInstructionNode, DocumentNode, EtreeElementNode
 from elementpath.xpath_context import XPathSchemaContext
@@ -251,7 +251,7 @@ def evaluate__normalize_space(self: XPathFunction, context: ta.ContextType = Non
         arg = self.string_value(self.get_argument(context, default_to_context=True, default=''))
     else:
         arg = self.get_argument(context, default_to_context=True, default='', cls=str)
-    return ' '.join(arg.strip().split())
+    return collapse_white_spaces(arg)
 
 
 @method(function('starts-with', nargs=2,
